@@ -252,6 +252,11 @@ for keys in (["gen"],["gen","u8"],["u8","gen"],["ph","gen"],["gen","sk64"]):
 for keys in (["u32"],["vec"],["opt"],["u8","ph"],["ph","u32"],["gen"],["gen","ph"]):
     for sk in ("tuple","named"):
         defs.append(struct(nm("T"),sk,keys,transparent=True,tag="transparent"))
+# repr(transparent) whose single non-ZST field carries an attribute: the in-place decode path must
+# not be taken (or must honour the attribute); decoded through Box / arrays by the composites
+for keys in (["cu32"],["cu64","ph"],["ph","cu128"],["sk64"],["sk64","ph"],["skvec"],["as16"],["aspt"],["ca"],["cgen"],["ph","as16"]):
+    for sk in ("tuple","named"):
+        defs.append(struct(nm("T"),sk,keys,transparent=True,tag="transparent"))
 # CompactAs derive on single-non-skipped-field structs
 for keys,sk in ((["u32"],"tuple"),(["u8"],"named"),(["sk64","u64"],"tuple"),(["u16","skvec"],"named"),(["u128"],"tuple")):
     d=struct(nm("A"),sk,keys,tag="compactas"); d.compact_as=True; defs.append(d)
